@@ -1,0 +1,9 @@
+//go:build verif
+
+package core
+
+// VerifSelectionRaw returns the raw fields of a selection.
+// Verification builds only.
+func VerifSelectionRaw(s *Selection) (active, visual, visualLine bool, bpos, epos int) {
+	return s.active, s.visual, s.visualLine, s.bpos, s.epos
+}
